@@ -22,3 +22,8 @@ Definition crc_from (s : Z) (m : bytes) : Z := fold_left crc_upd m s.
 Definition crc16 (m : bytes) : Z := crc_from 65535 m.
 (* the same register started at 0 (the linear part) *)
 Definition crc0 (m : bytes) : Z := crc_from 0 m.
+
+(* Steer conversion (tactics and kernel) away from unfolding the register update on symbolic
+   states: each crc_bit triplicates its argument, so an unfolded crc_upd is a 3^8-fold tree.
+   Levels only order unfoldings; nothing is made opaque. *)
+Strategy 1000 [crc_bit crc_F crc_upd].
